@@ -212,7 +212,7 @@ fn run_event(banks: Banks, full: bool) -> Result<Result<u32, String>, String> {
 /// C09 (bounded): extreme but representable CRC-valid packets never make assembling / reconstructing panic
 pub fn c09_event(tier: &str) -> Value {
     let target = "MainEvent::try_from_banks + timestamp + avalanches + vertex";
-    let bound = "wire waveforms of 64..700 samples and pad packets of 0..511 samples around the calibration delay, sample values in {0, baseline, +-2047, i16::MIN, i16::MAX}; isolated, neighbouring and full-ring occupancy";
+    let bound = "wire waveforms of 64..700 samples and pad packets of 0..511 samples around the calibration delay, sample values in {0, baseline, +-2047, i16::MIN, i16::MAX}; isolated, neighbouring and full-ring occupancy; single avalanches in time bins 0, 1, 134, 266..=270, 300, 400 (the edges of the drift table) at three pad rows";
     let mut cases = 0u64;
     let pb = padwing::BoardId::try_from("12").unwrap();
     let vals: [i16; 6] = [0, 3000, 2047, -2048, i16::MIN, i16::MAX];
@@ -267,6 +267,19 @@ pub fn c09_event(tier: &str) -> Value {
         let banks: Banks = e.banks();
         cases += 1;
         match run_event(banks.clone(), true) { Err(p) => return fail(format!("panic: {p} (equal amplitudes {pads:?} on three adjacent pads)"), cases, &banks), Ok(_) => {} }
+    }
+    // avalanches at every edge of the drift table: time bins 0, 1 and 266..=270 (bin 268 = 4.288 us is bit-for-bit the last tabulated
+    // drift time at z = 0), and bins beyond it, at the first, a middle and the last pad rows -- every avalanche goes through
+    // SpacePoint::try_from inside vertex(), whose errors are meant to be dropped, not to panic
+    for t0 in [0usize, 1, 134, 266, 267, 268, 269, 270, 300, 400] {
+        for row in [1usize, 288, 574] {
+            let mut e = crate::evt::Event::with_wires(40..56);
+            e.add_wire_avalanche(44, t0, 60.0);
+            e.add_pad_cluster(4, row, t0, [300.0, 900.0, 350.0]);
+            let banks: Banks = e.banks();
+            cases += 1;
+            match run_event(banks.clone(), true) { Err(p) => return fail(format!("panic: {p} (avalanche in time bin {t0} at pad row {row})"), cases, &banks), Ok(_) => {} }
+        }
     }
     // sent and over-threshold masks differ in both directions (forced channels / suppression quirks)
     for thr in [0u128, 1 << 3, (1 << 3) | (1 << 4) | (1 << 40), (1u128 << 79) - 1] {
